@@ -192,7 +192,9 @@ type connResult struct {
 //
 //	rb=N|all|none   how much of the body the handler reads (streaming) / observes
 //	sc=CODE         status code          body=TEXT   response body          close=1   SetConnectionClose
-//	hj=1 hijack     hjn=1 HijackSetNoResponse
+//	hj=1 hijack     hjn=1 HijackSetNoResponse     hjnr=1 HijackSetNoResponse(true) WITHOUT Hijack
+//	hcl=1           Response.Header.Set("Connection","close")
+//	ter=0|1         answer through TimeoutErrorWithResponse(resp) (1: resp.SetConnectionClose())
 //	stream=DECL:ACTUAL   SetBodyStream(reader of ACTUAL bytes, DECL)   (DECL=-1 unknown size)
 //	sw=N            SetBodyStreamWriter writing N bytes in 3 pieces
 //	te=1            ctx.TimeoutError("timed out!") then keep mutating
@@ -366,6 +368,21 @@ func newConnServer(cfg connCfg) *connServer {
 		}
 		if q.Has("close") {
 			ctx.SetConnectionClose()
+		}
+		if q.Has("hcl") { // the handler asks for close through the response header API
+			ctx.Response.Header.Set("Connection", "close")
+		}
+		if v := q.Peek("ter"); v != nil { // ter=0|1: answer through TimeoutErrorWithResponse (1: that response asks for close)
+			var r fasthttp.Response
+			r.SetStatusCode(fasthttp.StatusOK)
+			r.SetBodyString("ter")
+			if string(v) == "1" {
+				r.SetConnectionClose()
+			}
+			ctx.TimeoutErrorWithResponse(&r)
+		}
+		if q.Has("hjnr") { // HijackSetNoResponse without Hijack: must not leak into a later request
+			ctx.HijackSetNoResponse(true)
 		}
 		if q.Has("hj") {
 			hjWG.Add(1)
